@@ -7,6 +7,7 @@ RectOf(k) == CASE k = "inside"  -> [a |-> <<1, 1>>, b |-> <<4, 2>>]
                [] k = "partly"  -> [a |-> <<0, 0>>, b |-> <<3, 3>>]
                [] k = "outside" -> [a |-> <<10, 5>>, b |-> <<13, 6>>]
                [] k = "below"   -> [a |-> <<3, 1>>, b |-> <<7, 1>>]
+               [] k = "tworows" -> [a |-> <<1, 1>>, b |-> <<2, 2>>]      \* header + exactly one data row
                [] k = "far"     -> [a |-> <<1048570, 16380>>, b |-> <<1048575, 16383>>]
 MergeOf(k) == CASE k = "cell" -> [a |-> <<1, 1>>, b |-> <<1, 1>>]
                 [] k = "area" -> [a |-> <<0, 0>>, b |-> <<2, 2>>]
@@ -16,7 +17,7 @@ MergeOf(k) == CASE k = "cell" -> [a |-> <<1, 1>>, b |-> <<1, 1>>]
 MergeKinds == {"cell", "area", "row", "col26", "max"}
 MergeSeqs == UNION {{s \in [1..n -> MergeKinds] : \A i, j \in 1..n : i # j => s[i] # s[j]} : n \in 0..MaxMerges}
 
-Init == /\ cfg \in [rect : {"inside", "partly", "outside", "below", "far"}, hdr : {"absent", "0", "1"},
+Init == /\ cfg \in [rect : {"inside", "partly", "outside", "below", "tworows", "far"}, prefix : {"", "x"}, hdr : {"absent", "0", "1"},
                     tot : {"absent", "0", "1"}, target : {"rel", "abs"}, ncols : 1..3, sheet : 1..2,
                     s2empty : BOOLEAN, m1 : MergeSeqs, m2 : MergeSeqs]
         /\ done = FALSE
